@@ -37,6 +37,10 @@
 //!                    order), b = 1: all at once behind a barrier (the multiset of priorities is the stream's prefix)
 //!   doubling b r     b appended nodes, r times t = merge(t, t.clone()) - only when `Treap<Item>: Clone` exists (autoref
 //!                    specialisation); otherwise prints `skip doubling noclone`
+//!   fault n fam a ev the event `ev` (fault.rs: user code that panics / re-enters the library inside a library call, on a
+//!                    throw-away treap, followed by one probe draw), THEN family `fam` (one of the one-treap families above, with
+//!                    its parameter a) with n nodes on this thread.  Only the nodes created after the event are recorded (ids
+//!                    from 0); the event's token is appended to the output line.
 //! A trailing `+k` burns k draws first (k times `drop(TreapNode::new(item))`, recorded as well).
 use crate::{HItem, ItemSized};
 use rlib_treap::*;
@@ -256,9 +260,15 @@ fn bad(fam: &str, step: usize, e: String) -> String {
     format!("bad {} step {} : {}", fam, step, e)
 }
 
-fn one_treap<I: FamItem>(fam: &str, n: usize, a: usize, burnt: usize) -> String {
+fn one_treap<I: FamItem>(fam: &str, n: usize, a: usize, burnt: usize, ev: Option<&str>) -> String {
     let mut rec = Rec::new();
     burn::<I>(burnt, &mut rec);
+    let mut evinfo = String::new();
+    if let Some(tok) = ev {
+        let f: Vec<&str> = tok.split(':').collect();
+        evinfo = format!(" {}", crate::fault::token(&crate::fault::run(&crate::fault::parse(&f))));
+        rec = Rec::new();
+    }
     let mut t: Treap<I> = Treap::new();
     let mut raw: Link<I> = None; // family nodeapi works on the bare link
     let mut flip = 0u64;
@@ -357,7 +367,7 @@ fn one_treap<I: FamItem>(fam: &str, n: usize, a: usize, burnt: usize) -> String 
     let root = if fam == "nodeapi" { &raw } else { &t.root };
     let mut last = None;
     match walk(root, &rec, false, &mut last) {
-        Ok((s, h)) => finish(fam, n, h, s, &rec),
+        Ok((s, h)) => finish(fam, n, h, s, &rec) + &evinfo,
         Err(e) => bad(fam, n, e),
     }
 }
@@ -584,8 +594,20 @@ pub fn run(toks: &[&str]) -> String {
     let num = |k: usize| -> usize { args.get(k).map(|s| p::<usize>(s)).unwrap_or(0) };
     let n = num(1);
     match fam {
-        "append" | "front" | "rotate" | "appendremove" | "deque" | "middle" => one_treap::<ItemSized>(fam, n, num(2), burnt),
-        "mergebuild" | "setbuild" | "splitany" | "randremove" | "nodeapi" => one_treap::<ItemIdx>(fam, n, num(2), burnt),
+        "append" | "front" | "rotate" | "appendremove" | "deque" | "middle" => one_treap::<ItemSized>(fam, n, num(2), burnt, None),
+        "mergebuild" | "setbuild" | "splitany" | "randremove" | "nodeapi" => one_treap::<ItemIdx>(fam, n, num(2), burnt, None),
+        "fault" => match (args.get(2).copied(), args.get(4).copied()) {
+            (Some(after @ ("append" | "front" | "rotate" | "appendremove" | "deque" | "middle")), Some(ev)) => {
+                one_treap::<ItemSized>(after, n, num(3), burnt, Some(ev))
+            }
+            (Some(after @ ("mergebuild" | "setbuild" | "splitany" | "randremove" | "nodeapi")), Some(ev)) => {
+                one_treap::<ItemIdx>(after, n, num(3), burnt, Some(ev))
+            }
+            _ => {
+                eprintln!("harness: fault needs <n> <family> <a> <event>");
+                std::process::exit(3)
+            }
+        },
         "roundrobin" => roundrobin(n, num(2).max(1), burnt),
         "blocks" => blocks(n, num(2).max(1), num(3), burnt),
         "threads" => threads(n, num(2), num(3), num(4) == 1, burnt),
